@@ -72,7 +72,11 @@ type c09Harness struct {
 	hashes    []common.Hash
 	nonces    []uint64
 	idx       map[common.Hash]int
-	armed     bool
+	armed     int // batch calls the harness expects in the current round
+	roundConf uint64
+	errArmed  bool
+	errHit    chan struct{}
+	errRel    chan struct{}
 	entered   chan []common.Hash
 	release   chan map[common.Hash]string
 	held      map[common.Hash]string // answers of the round being released (rpc transport)
@@ -122,8 +126,18 @@ func (h *c09Harness) rpcAnswer(ctx context.Context, hash common.Hash) (map[strin
 // the batch call of the function-mock transport
 func (h *c09Harness) mockBatch(ctx context.Context, elems []rpc.BatchElem) error {
 	h.mu.Lock()
-	armed := h.armed
-	h.armed = false
+	// a check started from an older block update (ticker) than the round being forced would query
+	// rows the round's confirmed nonce excludes: not this round's batch
+	stale := false
+	for _, e := range elems {
+		if j, ok := h.idx[e.Args[0].(common.Hash)]; ok && j < len(h.nonces) && h.nonces[j] >= h.roundConf {
+			stale = true
+		}
+	}
+	armed := h.armed > 0 && !stale
+	if armed {
+		h.armed--
+	}
 	h.mu.Unlock()
 	if !armed {
 		return errors.New("unsolicited round: node busy")
@@ -154,8 +168,18 @@ type c09RPCBatcher struct{ h *c09Harness }
 func (b c09RPCBatcher) BatchCallContext(ctx context.Context, elems []rpc.BatchElem) error {
 	h := b.h
 	h.mu.Lock()
-	armed := h.armed
-	h.armed = false
+	// a check started from an older block update (ticker) than the round being forced would query
+	// rows the round's confirmed nonce excludes: not this round's batch
+	stale := false
+	for _, e := range elems {
+		if j, ok := h.idx[e.Args[0].(common.Hash)]; ok && j < len(h.nonces) && h.nonces[j] >= h.roundConf {
+			stale = true
+		}
+	}
+	armed := h.armed > 0 && !stale
+	if armed {
+		h.armed--
+	}
 	h.mu.Unlock()
 	if !armed {
 		return errors.New("unsolicited round: node busy")
@@ -236,6 +260,31 @@ func c09Flagged(d txnDetails) bool {
 	return f.IsValid() && f.Kind() == reflect.Bool && f.Bool()
 }
 
+// the monitor's base context with a gate in Err(): the value is read first, then the caller is
+// held — the caller acts on what it saw before shutdown began, however long it takes to act.
+// (With the check made under the monitor's mutex this merely delays the drain; made outside, the
+// drain overtakes the registration.)
+type c09Ctx struct {
+	context.Context
+	h *c09Harness
+}
+
+func (c c09Ctx) Err() error {
+	e := c.Context.Err()
+	c.h.mu.Lock()
+	armed, hit, rel := c.h.errArmed, c.h.errHit, c.h.errRel
+	c.h.errArmed = false
+	c.h.mu.Unlock()
+	if armed {
+		close(hit)
+		select {
+		case <-rel:
+		case <-time.After(2 * time.Second):
+		}
+	}
+	return e
+}
+
 type c09Ext struct {
 	id   int
 	tx   int
@@ -254,6 +303,12 @@ func c09Exec(t *testing.T, rng *vrng, transport string, plan []string) (c09In, c
 	}
 	h.client = c
 	mon := c.monitor
+	if !vRace {
+		// an unsynchronised write: both monitor loops are parked in their selects by now and read
+		// the field again only after a channel operation that follows this write
+		time.Sleep(2 * time.Millisecond)
+		mon.baseCtx = c09Ctx{mon.baseCtx, h}
+	}
 	nextID := 0
 	var exts []*c09Ext
 	internalOf := map[int]int{} // tx -> internal waiter id
@@ -287,23 +342,32 @@ func c09Exec(t *testing.T, rng *vrng, transport string, plan []string) (c09In, c
 			return
 		}
 		tx := len(h.hashes)
-		h.mu.Lock()
-		h.hashes = append(h.hashes, hash)
-		h.idx[hash] = tx
-		h.mu.Unlock()
 		h.stub.mu.Lock()
 		n := h.stub.accepted[len(h.stub.accepted)-1]
 		h.stub.mu.Unlock()
+		h.mu.Lock()
+		h.hashes = append(h.hashes, hash)
 		h.nonces = append(h.nonces, n)
+		h.idx[hash] = tx
+		h.mu.Unlock()
 		// the client's own waiter registers asynchronously: wait for it
 		waitFor(func() bool { return rowLen(tx) >= 1 })
 		in.Steps = append(in.Steps, c09Step{T: "send", Nonce: n, Tx: tx})
 		internalOf[tx] = nextID
 		nextID++
 	}
-	doWatch := func(tx int) {
+	var closeRes chan bool
+	var startClose func() chan bool
+	var awaitDrain func()
+	doWatch := func(tx int, racingClose bool) {
 		if tx >= len(h.hashes) {
 			return
+		}
+		racingClose = racingClose && !vRace
+		if racingClose {
+			h.mu.Lock()
+			h.errArmed, h.errHit, h.errRel = true, make(chan struct{}), make(chan struct{})
+			h.mu.Unlock()
 		}
 		before := rowLen(tx)
 		ctx, cancel := context.WithCancel(context.Background())
@@ -331,6 +395,33 @@ func c09Exec(t *testing.T, rng *vrng, transport string, plan []string) (c09In, c
 				e.done <- "error"
 			}
 		}()
+		if racingClose {
+			// the watcher has looked at the shutdown flag and is held; Close runs; the watcher resumes
+			hit := false
+			select {
+			case <-h.errHit:
+				hit = true
+			case <-time.After(300 * time.Millisecond):
+				h.mu.Lock()
+				h.errArmed = false
+				h.mu.Unlock()
+			}
+			if hit {
+				closeRes = startClose()
+				select {
+				case <-mon.waitDone:
+				case <-time.After(20 * time.Millisecond):
+				}
+				close(h.errRel)
+				awaitDrain()
+				in.Steps = append(in.Steps, c09Step{T: "watch", Nonce: h.nonces[tx], Tx: tx},
+					c09Step{T: "beginShutdown"}, c09Step{T: "drain"})
+				e.id = nextID
+				nextID++
+				exts = append(exts, e)
+				return
+			}
+		}
 		// registered (row grew), or answered at once (done): refused after shutdown, entry already
 		// flagged cancelled, or the client no longer tracks the hash
 		registered := false
@@ -361,28 +452,44 @@ func c09Exec(t *testing.T, rng *vrng, transport string, plan []string) (c09In, c
 	}
 	// one check round: block arrival with confirmed nonce c, batch held, optional actions while it
 	// is in flight, then the answers
-	startRound := func(conf uint64) []common.Hash {
-		h.mu.Lock()
-		h.armed = true
-		h.mu.Unlock()
+	// rows a check with confirmed nonce conf will query
+	rowsBelow := func(conf uint64) int {
+		mon.mtx.Lock()
+		defer mon.mtx.Unlock()
+		n := 0
+		for nonce, m := range mon.waitMap {
+			if nonce < conf {
+				n += len(m)
+			}
+		}
+		return n
+	}
+	startRound := func(conf uint64) ([]common.Hash, int) {
+		nb := (rowsBelow(conf) + batchSize - 1) / batchSize
+		if nb == 0 {
+			nb = 1
+		}
 		h.stub.mu.Lock()
 		h.stub.confirmed = conf
 		h.stub.mu.Unlock()
+		h.mu.Lock()
+		h.armed, h.roundConf = nb, conf
+		h.mu.Unlock()
 		select {
 		case mon.newTxAdded <- struct{}{}:
 		case <-time.After(time.Second):
 		}
 		select {
 		case hs := <-h.entered:
-			return hs
+			return hs, nb
 		case <-time.After(300 * time.Millisecond):
 			h.mu.Lock()
-			h.armed = false
+			h.armed = 0
 			h.mu.Unlock()
-			return nil
+			return nil, 0
 		}
 	}
-	finishRound := func(conf uint64, hs []common.Hash, classes func(tx int) string) {
+	finishBatch := func(conf uint64, hs []common.Hash, classes func(tx int) string) {
 		answers := map[common.Hash]string{}
 		for _, hash := range hs {
 			tx := h.idx[hash]
@@ -398,11 +505,12 @@ func c09Exec(t *testing.T, rng *vrng, transport string, plan []string) (c09In, c
 			tx := h.idx[hash]
 			in.Steps = append(in.Steps, c09Step{T: "reply", C: conf, Nonce: h.nonces[tx], Tx: tx, Ans: answers[hash]})
 		}
-		// wait until the rows that must disappear did
+		// wait until the rows that must disappear did (give up after the first that does not)
+		stuck := false
 		for _, hash := range hs {
 			tx := h.idx[hash]
-			if a := answers[hash]; a != "othererr" {
-				waitFor(func() bool { return rowLen(tx) == 0 })
+			if a := answers[hash]; a != "othererr" && !stuck {
+				stuck = !waitFor(func() bool { return rowLen(tx) == 0 })
 			}
 		}
 		// the client's own waiter consumes its outcome asynchronously: wait until it did, and log
@@ -414,6 +522,9 @@ func c09Exec(t *testing.T, rng *vrng, transport string, plan []string) (c09In, c
 				continue
 			}
 			internalDone[tx] = true
+			if stuck {
+				continue
+			}
 			hh := hash
 			ok := waitFor(func() bool {
 				c.mtx.Lock()
@@ -427,6 +538,8 @@ func c09Exec(t *testing.T, rng *vrng, transport string, plan []string) (c09In, c
 			if ok {
 				observed[tx] = true
 				in.Steps = append(in.Steps, c09Step{T: "observe", W: internalOf[tx]})
+			} else {
+				stuck = true
 			}
 		}
 		time.Sleep(2 * time.Millisecond)
@@ -434,14 +547,31 @@ func c09Exec(t *testing.T, rng *vrng, transport string, plan []string) (c09In, c
 		h.held = nil
 		h.mu.Unlock()
 	}
-	doClose := func() chan bool {
+	// the remaining batches of a round whose first batch is hs
+	finishRound := func(conf uint64, hs []common.Hash, nb int, classes func(tx int) string) {
+		finishBatch(conf, hs, classes)
+		for b := 1; b < nb; b++ {
+			select {
+			case more := <-h.entered:
+				finishBatch(conf, more, classes)
+			case <-time.After(500 * time.Millisecond):
+				b = nb
+			}
+		}
+		h.mu.Lock()
+		h.armed = 0
+		h.mu.Unlock()
+	}
+	startClose = func() chan bool {
 		res := make(chan bool, 1)
 		closed = true
 		for tx := range internalOf {
 			internalDone[tx] = true // the drain answers every remaining waiter "closed"
 		}
 		go func() { res <- c.Close() != nil }()
-		in.Steps = append(in.Steps, c09Step{T: "beginShutdown"}, c09Step{T: "drain"})
+		return res
+	}
+	awaitDrain = func() {
 		// the watch loop's deferred drain runs at once; wait until the waiters saw it
 		waitFor(func() bool {
 			select {
@@ -452,51 +582,90 @@ func c09Exec(t *testing.T, rng *vrng, transport string, plan []string) (c09In, c
 			}
 		})
 		time.Sleep(time.Millisecond)
+	}
+	doClose := func() chan bool {
+		res := startClose()
+		in.Steps = append(in.Steps, c09Step{T: "beginShutdown"}, c09Step{T: "drain"})
+		awaitDrain()
 		return res
+	}
+	// a transaction the client still tracks as pending (WaitForReceipt will reach the monitor)
+	stillPending := func() int {
+		c.mtx.Lock()
+		defer c.mtx.Unlock()
+		var cand []int
+		for tx, hash := range h.hashes {
+			if d, ok := c.sentTxs[hash]; ok && !c09Flagged(d) {
+				cand = append(cand, tx)
+			}
+		}
+		if len(cand) == 0 {
+			return -1
+		}
+		return cand[rng.intn(len(cand))]
 	}
 	classOf := func(tx int) string {
 		return []string{"receipt-ok", "receipt-ok", "receipt-failed", "notfound", "notfound", "othererr"}[rng.intn(6)]
 	}
-	var closeRes chan bool
 	for _, p := range plan {
 		switch {
 		case p == "send":
 			doSend()
+		case p == "bigsend":
+			// more rows than one receipt batch holds
+			for i, n := 0, batchSize+2+rng.intn(12); i < n; i++ {
+				doSend()
+			}
+		case p == "round-all":
+			if closed || len(h.hashes) == 0 {
+				continue
+			}
+			conf := h.nonces[len(h.nonces)-1] + 1
+			if hs, nb := startRound(conf); hs != nil {
+				finishRound(conf, hs, nb, classOf)
+			}
+		case p == "close-racing-watch":
+			if closed {
+				continue
+			}
+			if tx := stillPending(); tx >= 0 {
+				doWatch(tx, true)
+			}
 		case strings.HasPrefix(p, "watch"):
 			if len(h.hashes) > 0 {
-				doWatch(rng.intn(len(h.hashes)))
+				doWatch(rng.intn(len(h.hashes)), false)
 			}
 		case p == "round":
 			if closed || len(h.hashes) == 0 {
 				continue
 			}
 			conf := uint64(rng.intn(len(h.hashes) + 3))
-			if hs := startRound(conf); hs != nil {
-				finishRound(conf, hs, classOf)
+			if hs, nb := startRound(conf); hs != nil {
+				finishRound(conf, hs, nb, classOf)
 			}
 		case p == "round-watch-inflight":
 			if closed || len(h.hashes) == 0 {
 				continue
 			}
 			conf := h.nonces[len(h.nonces)-1] + 1
-			if hs := startRound(conf); hs != nil {
-				doWatch(rng.intn(len(h.hashes))) // registered while the batch is in flight
+			if hs, nb := startRound(conf); hs != nil {
+				doWatch(rng.intn(len(h.hashes)), false) // registered while the batch is in flight
 				if rng.chance(40) {
 					doSend()
 				}
-				finishRound(conf, hs, classOf)
+				finishRound(conf, hs, nb, classOf)
 			}
 		case p == "round-close-inflight":
 			if closed || len(h.hashes) == 0 {
 				continue
 			}
 			conf := h.nonces[len(h.nonces)-1] + 1
-			if hs := startRound(conf); hs != nil {
+			if hs, nb := startRound(conf); hs != nil {
 				closeRes = doClose() // shutdown and drain while the reply is in flight
 				if rng.chance(50) {
-					doWatch(rng.intn(len(h.hashes)))
+					doWatch(rng.intn(len(h.hashes)), false)
 				}
-				finishRound(conf, hs, classOf)
+				finishRound(conf, hs, nb, classOf)
 			}
 		case p == "close":
 			if !closed {
@@ -575,6 +744,9 @@ func TestVerifC09(t *testing.T) {
 		{"send", "close", "watch"},
 		{"send", "watch", "close", "watch", "send"},
 		{"send", "send", "send", "watch", "watch", "watch", "round", "round-close-inflight"},
+		{"send", "send", "watch", "close-racing-watch"},
+		{"send", "watch", "round", "send", "close-racing-watch", "watch"},
+		{"bigsend", "watch", "watch", "round-all", "watch", "round-all", "close"},
 	}
 	emitCase := func(transport string, plan []string) {
 		caseNo := out.n
@@ -599,11 +771,14 @@ func TestVerifC09(t *testing.T) {
 			emitCase(tr, p)
 		}
 	}
-	acts := []string{"send", "send", "watch", "watch", "round", "round", "round-watch-inflight", "round-close-inflight", "close"}
+	acts := []string{"send", "send", "watch", "watch", "round", "round", "round-all", "round-watch-inflight", "round-close-inflight", "close", "close-racing-watch"}
 	for i := 0; i < vcount(60, 1200); i++ {
 		var plan []string
 		n := 3 + rng.intn(vcount(10, 24))
 		plan = append(plan, "send")
+		if i%10 == 9 {
+			plan = append(plan, "bigsend")
+		}
 		for j := 0; j < n; j++ {
 			plan = append(plan, acts[rng.intn(len(acts))])
 		}
